@@ -109,6 +109,16 @@ def run_crash_workload(ctx, steps, tag, manual=0, power_loss=True, two_ks=False,
             flushed = len(states) - 1
             if mode in ('syncdata', 'syncall'):
                 synced = len(states) - 1
+        elif s.startswith('T:'):
+            # a transaction committed with an explicit durability level (transactional database kinds only)
+            mode = s[2:]
+            k1, k2 = key(n + 1), key(n + 2); n += 2
+            tid = f't{n}'
+            L += [f'tx {tid} begin', f'tx {tid} durability {mode}', f'tx {tid} insert a {k1} 54', f'tx {tid} insert a {k2} 54', f'tx {tid} commit']
+            push(lambda st, k1=k1, k2=k2: (st['a'].__setitem__(k1, '54'), st['a'].__setitem__(k2, '54')), f'durable transaction({mode}) a:{k1},{k2}')
+            flushed = len(states) - 1
+            if mode in ('syncdata', 'syncall'):
+                synced = len(states) - 1
         elif s == 'c':
             L.append('clear a'); push(lambda st: st['a'].clear(), 'clear a')
             if not manual:
